@@ -178,7 +178,13 @@ func skBody(stmts []ast.Stmt, t reflect.Type) string {
 				if !ok || len(f.Index) != 1 {
 					panic("no direct field " + l.Sel.Name)
 				}
-				out = append(out, fmt.Sprintf(".%d=%s", f.Index[0], skExpr(rhs, f.Type)))
+				idx := 0 // position among the non-blank fields (blank fields do not exist in the value universe)
+				for k := 0; k < f.Index[0]; k++ {
+					if st.Field(k).Name != "_" {
+						idx++
+					}
+				}
+				out = append(out, fmt.Sprintf(".%d=%s", idx, skExpr(rhs, f.Type)))
 			case *ast.StarExpr: // *this = e
 				if !isIdent(l.X, "this") {
 					panic("deref of non-this")
